@@ -8,6 +8,10 @@ line of the op into class `W`: used for inputs outside the property's domain):
 * `rt <secs> <fmt> <full|short> <parse fmt>`   format, then parse the text just produced
 * `acc <secs> <ms>`     `aws_date_time_init_epoch_secs(secs + ms/1000.0)`, accessors and epoch views
 * `millis <u64>`        `aws_date_time_init_epoch_millis`, accessors and epoch views
+* `lfmt <offset secs> <zone name hex> <secs> <fmt> <full|short>`   local-time formatters; the process zone of the run
+                       (fixed offset, `%Z` name) is given in the op because the model has no environment
+* `diff <a> <b>`       `aws_date_time_diff` of two instants
+* `now`                `aws_date_time_init_now` (the harness compares with the wall clock and prints a verdict)
 * `fmtb <cap> <prefix hex> (<secs> <fmt> <full|short>)+`   format one after the other into one buffer holding the prefix
 -/
 namespace Driver.DateTimeD
@@ -35,7 +39,7 @@ def toBytes (l : List Byte) : List UInt8 := l.map UInt8.ofNat
 
 def fields (dt : DateTime) : String :=
   s!"ts={dt.timestamp} ms={dt.millis} y={accYear dt} mon={accMonth dt} d={accMonthDay dt} wd={accDayOfWeek dt} " ++
-  s!"h={accHour dt} mi={accMinute dt} s={accSecond dt}"
+  s!"h={accHour dt} mi={accMinute dt} s={accSecond dt} dst={if accDst dt then 1 else 0}"
 
 def hex16 (n : Nat) : String :=
   String.ofList ((List.range 16).reverse.map (fun i => hexDigit ((n >>> (4 * i)) % 16)))
@@ -106,6 +110,16 @@ def run (t : List String) : List String :=
   | ["millis", ms] => match parseU64? ms with
     | some ms => if ms < u64 then let dt := initEpochMillis ms; [s!"P acc {fields dt}", views dt] else ["bad-op"]
     | none => ["bad-op"]
+  | ["lfmt", off, zn, secs, f, sh] => match parseInt? off, parseHex? zn, parseInt? secs, fmt? f, short? sh with
+    | some off, some zn, some secs, some f, some sh =>
+      match formatLocal { off := off, name := zn.map (·.toNat) } (initEpochSecs secs 0) f sh 100 with
+      | .ok t => [s!"P lfmt OK {hexOf (toBytes t)}"]
+      | .error e => [s!"P lfmt {errName e}"]
+    | _, _, _, _, _ => ["bad-op"]
+  | ["diff", a, b] => match parseInt? a, parseInt? b with
+    | some a, some b => [s!"P diff {diff (initEpochSecs a 0) (initEpochSecs b 0)}"]
+    | _, _ => ["bad-op"]
+  | ["now"] => ["P now ok"]
   | "fmtb" :: cap :: pre :: steps => match cap.toNat?, parseHex? pre, parseSteps steps with
     | some cap, some pre, some steps => runFmtb cap (pre.map (·.toNat)) steps
     | _, _, _ => ["bad-op"]
